@@ -463,7 +463,7 @@ async def _runner(
 
     try:
         if isinstance(handler, handlers_.DaemonHandler):
-            await _daemon(settings=settings, handler=handler, cause=cause)
+            await _daemon(settings=settings, handler=handler, cause=cause, memory=memory)
         elif isinstance(handler, handlers_.TimerHandler):
             await _timer(settings=settings, handler=handler, cause=cause, memory=memory)
         else:
@@ -503,6 +503,7 @@ async def _daemon(
         *,
         settings: configuration.OperatorSettings,
         handler: handlers_.DaemonHandler,
+        memory: DaemonsMemory,
         cause: causes.DaemonCause,
 ) -> None:
     """
@@ -536,6 +537,12 @@ async def _daemon(
             state=state,
         )
         state = state.with_outcomes(outcomes)
+
+        # Remember the exit "on its own" at the moment of exiting: the stopper can be set while
+        # the results are being patched, but that does not make it an exit "on request".
+        if state.done and not stopper.is_set():
+            memory.forever_stopped.add(handler.id)
+
         progression.deliver_results(outcomes=outcomes, patch=patch)
         _, remaining_patch = await application.patch_and_check(
             settings=settings,
@@ -550,7 +557,7 @@ async def _daemon(
         if state.delay:
             await aiotime.sleep(state.delay, wakeup=cause.stopper.async_event)
 
-    if stopper.is_set():
+    if stopper.is_set() and handler.id not in memory.forever_stopped:
         logger.debug(f"{handler} has exited on request and will not be retried or restarted.")
     else:
         logger.debug(f"{handler} has exited on its own and will not be retried or restarted.")
